@@ -57,7 +57,8 @@ class HasIO(Module):
             opts = {'uri': self.uri, 'description': f'communication device for {name}',
                     'visibility': 'expert'}
             ioname = self.ioDict.get(self.uri)
-            if not ioname:
+            if ioname not in srv.secnode.modules:
+                # not yet created - or created by the previous generation of the node (before a restart)
                 ioname = opts.get('io') or f'{name}_io'
                 io = self.ioClass(ioname, srv.log.getChild(ioname), opts, srv)  # pylint: disable=not-callable
                 io.callingModule = []
